@@ -115,6 +115,11 @@ func canonBody(info *types.Info, fd *ast.FuncDecl) ([]string, string) {
 			return render(x.X)
 		case *ast.IncDecStmt:
 			return render(x.X) + x.Tok.String()
+		case *ast.ReturnStmt:
+			if len(x.Results) == 1 {
+				return resName + " = " + render(x.Results[0]) + "; RETURN"
+			}
+			return "RETURN"
 		}
 		return fmt.Sprintf("<%T>", n)
 	}
@@ -140,7 +145,18 @@ func canonBody(info *types.Info, fd *ast.FuncDecl) ([]string, string) {
 	return out, resName
 }
 
-var condSubPattern = regexp.MustCompile(`^IF \(\$r >= (\$p\d+)\) \{ \$r -= (\$p\d+); \}$`)
+var condSubPattern = regexp.MustCompile(`^IF \((?:\$r >= (\$p\d+)|(\$p\d+) <= \$r)\) \{ (?:\$r -= (\$p\d+)|\$r = \(\$r - (\$p\d+)\)); \}$`)
+
+// condSub recognises the one conditional subtraction of the modulus in its spellings (`if r >= q { r -= q }`,
+// `if q <= r { r = r - q }`) and returns the parameter subtracted.
+func condSub(stmt string) (string, bool) {
+	m := condSubPattern.FindStringSubmatch(stmt)
+	if m == nil {
+		return "", false
+	}
+	cmp, sub := m[1]+m[2], m[3]+m[4]
+	return cmp, cmp == sub
+}
 
 func scanTwin(c *core.Ctx) []ob {
 	var out []ob
@@ -179,6 +195,41 @@ func scanTwin(c *core.Ctx) []ob {
 		pos := c.Rel(strict.Pos())
 		sb, _ := canonBody(info, strict)
 		lb, _ := canonBody(info, lazy)
+		// the strict primitive may also be written as its lazy twin called on the same arguments, followed by the
+		// conditional subtraction, or handed to CRed (which is that conditional subtraction)
+		{
+			var args []string
+			qIdx := -1
+			i := 0
+			for _, f := range strict.Type.Params.List {
+				for _, nm := range f.Names {
+					args = append(args, fmt.Sprintf("$p%d", i))
+					if nm.Name == "q" {
+						qIdx = i
+					}
+					i++
+				}
+			}
+			call := name + "Lazy(" + strings.Join(args, ", ") + ")"
+			deleg := false
+			switch {
+			case len(sb) == 2 && sb[0] == "$r = "+call:
+				if p, ok := condSub(sb[1]); ok && qIdx >= 0 && p == fmt.Sprintf("$p%d", qIdx) {
+					deleg = true
+				}
+			case len(sb) == 1 && qIdx >= 0 && sb[0] == fmt.Sprintf("$r = CRed(%s, $p%d)", call, qIdx):
+				if cr := decls["CRed"]; cr != nil {
+					cb, _ := canonBody(info, cr)
+					if len(cb) == 2 && cb[0] == "IF ($p0 >= $p1) { $r = ($p0 - $p1); RETURN; }" && cb[1] == "$r = $p0" {
+						deleg = true
+					}
+				}
+			}
+			if deleg {
+				out = append(out, okOb("TWIN", key, pos, "the strict primitive is its lazy twin on the same arguments followed by one conditional subtraction of q", true))
+				continue
+			}
+		}
 		if len(sb) != len(lb)+1 {
 			out = append(out, violOb("TWIN", key, pos, fmt.Sprintf("ring.%s has %d canonical statements, ring.%sLazy has %d: the strict primitive is not its lazy twin plus one conditional subtraction", name, len(sb), name, len(lb))))
 			continue
@@ -191,13 +242,13 @@ func scanTwin(c *core.Ctx) []ob {
 			}
 		}
 		if bad == "" {
-			m := condSubPattern.FindStringSubmatch(sb[len(sb)-1])
-			if m == nil || m[1] != m[2] {
+			cp, okc := condSub(sb[len(sb)-1])
+			if !okc {
 				bad = fmt.Sprintf("the extra statement of the strict variant is `%s`, not `if r >= q { r -= q }`", sb[len(sb)-1])
 			} else {
 				// the subtracted parameter must be the modulus: the parameter named q in both
 				idx := 0
-				fmt.Sscanf(m[1], "$p%d", &idx)
+				fmt.Sscanf(cp, "$p%d", &idx)
 				pn := paramNameAt(strict, idx)
 				if pn != "q" {
 					bad = fmt.Sprintf("the conditional subtraction uses parameter %q, not the modulus q", pn)
